@@ -145,6 +145,10 @@ def run_dispatch(case):
                         volatile.setdefault(k, []).append(reg)
                 elif b['action'] == 'close':
                     close_link(b.get('idle', 1))
+                elif b['action'] == 'rewrite':
+                    # the callback re-uses the packet object for its answer: the header the packet ARRIVED with decides who gets it
+                    pk.set_header(b['port'], b['channel'])
+                    out.feat('callback-rewrites-the-packet-header')
             if do_raise:
                 raise RuntimeError('callback %d raises on packet %d' % (cbid, k))
         return f
@@ -343,6 +347,10 @@ def _case(draw):
         else:
             b['reg'] = draw(st.one_of(_reg(), st.sampled_from(regs)))
         beh.append(b)
+    for _ in range(draw(st.sampled_from([0, 0, 1, 2]))):
+        r_ = draw(st.sampled_from(regs))
+        beh.append({'cb': r_['cb'], 'packet': draw(st.integers(0, len(packets) - 1)), 'action': 'rewrite',
+                    'port': draw(st.one_of(st.integers(0, 15), st.sampled_from(regs).map(lambda r: r['port'] & 0xF))), 'channel': draw(st.integers(0, 3))})
     if draw(st.sampled_from([False, False, True])):
         # the application closes the link from inside a callback (all-packet or port callback) and opens it again later
         beh.append({'cb': draw(st.sampled_from([-1, draw(st.sampled_from(regs))['cb']])), 'packet': draw(st.integers(0, len(packets) - 1)), 'action': 'close',
